@@ -28,6 +28,9 @@ CHECKS["C03"] = ("exploration", "bounded-exhaustive valid-text enumeration throu
 CHECKS["C16"] = ("model_checking", "explicit-state exploration of real Decoder/Encoder positions against reference models, plus exhaustive invalid-text error-location checks against the reference recognizer's viable-prefix and open-container computation",
   "(a) pointer-sensitive documents x every call program on a real Decoder and every call sequence over a pointer-sensitive alphabet on a real Encoder, all observables compared with the models after every call; pointers observed only after N unobserved calls for every N (StackPointer has a side effect that can mask stale names); (b) Pointer algebra on all token sequences <=3; (c) every invalid string of the alphabet views x 3 paths: prefix before ByteOffset viable, offset not before the offending token, pointer designates the innermost slot or its container; (d) SemanticError pointer/offset for one unconvertible value at each of 12 positions.",
   "Trusted: reference recognizer (viable prefix, open containers) and coder models.", "2/C16")
+CHECKS["C07"] = ("fault_enumeration", "exhaustive size sweep across every flush threshold x writer kinds x entry points, and enumeration of every single write-fault schedule (call index x short-write length)",
+  "For every leading-string length of the tier's set (thorough: every L in 0..9000) x 6 value shapes with 7 kinds of empty omitempty members at first/middle/last position x 3 whitespace option sets x 2 pool histories: bytes delivered by MarshalWrite (bytes.Buffer, pre-grown, plain writer), MarshalEncode on streaming Encoders and a token-level replay equal Marshal's. Every failing Write call index x {0,1,len/2,len-1} accepted bytes: token-level Encoders accept every token, keep OutputOffset, deliver a prefix and finally everything; MarshalWrite returns the error with only a prefix delivered and later calls are unaffected.",
+  "Trusted: Marshal's output as reference bytes (validated by the reference recognizer).", "2/C07")
 NOT_YET = {}
 def main():
     props=[json.loads(l)["id"] for l in open("properties.jsonl")]
